@@ -87,6 +87,21 @@ CLAIMED = {
     technique="contract-based deductive verification: symbolic execution of the real decoder against a table-driven spec "
               "function, z3 QF_BV",
     note=TB + "; specs/events.py is the trusted oracle; Frame/Address through contracts, decoder bodies inlined"),
+ "C11": dict(
+    category="proof",
+    text="For every declared memory value (all banks, taken from the live declarations) and every byte string of its "
+         "length (bytes symbolic) the real from_list and the real check_raw/raw_to_value pair are verified against a "
+         "specification function written from the property and the DiiA/IEC encodings: never raises, MASK/TMASK exactly at "
+         "the sign- and scale-byte-aware all-ones patterns, Invalid for range/scale/boolean/non-ASCII violations, otherwise "
+         "the documented number, scaled number, temperature, boolean, string; number->raw->number and string->raw->string "
+         "are proved to be the identity over the full range / every length; version texts are compared natively on their "
+         "complete finite domain; the declared memory map, overlap-freedom, lockability and mask patterns are compared "
+         "exhaustively with an independently transcribed layout table.",
+    design_ref="DESIGN.md 6 (C11)",
+    technique="contract-based deductive verification: refinement against spec functions (z3 QF_BV) + exhaustive checks of the "
+              "finite declaration tables",
+    note=TB + "; specs/memory_layout.py is the trusted oracle of the layout clause; Decimal/float scaling compared "
+         "structurally"),
 }
 
 NA_REASON = "check under construction in this round (no obligations built yet); see DESIGN.md section 6"
